@@ -181,7 +181,16 @@ impl Store {
                 }
             }
         }
-        latest.into_values().map(decode).collect()
+        // In id order, as the live index answers: the map above is keyed by
+        // the id's text, where "A-10" sorts before "A-2".
+        let mut rows: Vec<ElementVersionRow> = latest.into_values().collect();
+        rows.sort_by_key(|row| {
+            row.element
+                .parse::<ElementId>()
+                .map(|id| id.seq)
+                .unwrap_or(u64::MAX)
+        });
+        rows.into_iter().map(decode).collect()
     }
 
     /// Resolves `AS OF TX :tx` to the Space sequence that transaction produced.
